@@ -44,12 +44,23 @@ def shapes(tier):
     # labels whose numeric and textual orders differ: integer dict keys of different widths, and > 10 list sources
     out.append({"sizes": [1, 2, 1], "input": "dict_int", "poly_trend": 1, "mixed_units": False})
     out.append({"sizes": [1] * (11 if tier == "quick" else 12), "input": "list", "poly_trend": 1, "mixed_units": False, "ordered": True})
+    # a survey may quote its uncertainties in another (equivalent) unit than its velocities
+    out.append({"sizes": [1, 2], "input": "list", "poly_trend": 1, "mixed_units": False, "err_unit_differs": True})
+    out.append({"sizes": [2, 1], "input": "dict", "poly_trend": 2, "mixed_units": True, "err_unit_differs": True})
     out.append({"sizes": [2], "input": "single", "poly_trend": 2, "mixed_units": False})
     out.append({"sizes": [3], "input": "single", "poly_trend": 3, "mixed_units": False})
     return out
 
 
 _KEYS = {"list": None, "dict": ["apogee", "lamost", "zgaia"], "dict_rev": ["zeta", "mid", "alpha"], "dict_int": [10, 9, 100]}
+
+
+def _err_unit(shape, k, un, U):
+    """unit in which survey k quotes its uncertainties (shape 'err_unit_differs': not the unit of its velocities)"""
+    if not shape.get("err_unit_differs"):
+        return un
+    kms, ms = U.km / U.s, U.m / U.s
+    return ms if (k % 2 == 0) == (un == kms or un is kms) else kms
 
 
 def _mk(shape, st, RVData):
@@ -63,7 +74,7 @@ def _mk(shape, st, RVData):
             core.assume(e > 0)
         un = units.m / units.s if (shape["mixed_units"] and k % 2 == 1) else units.km / units.s
         d = RVData(symnp.SymArray(symnp._obj(t), symnp._F8), units.Quantity(symnp.SymArray(symnp._obj(rv), symnp._F8), un),
-                   units.Quantity(symnp.SymArray(symnp._obj(err), symnp._F8), un))
+                   units.Quantity(symnp.SymArray(symnp._obj(err), symnp._F8), _err_unit(shape, k, un, units)))
         srcs.append(d)
         cells.append((t, rv, err, un))
     if shape.get("ordered"):
@@ -155,8 +166,9 @@ def _spec(sink, path, shape, cells, keys, all_data, ids, trend_M, res):
     obs = []
     for k, (t, rv, err, un) in enumerate(cells):
         f = un.to(out_unit)
+        fe = _err_unit(shape, k, un, units).to(out_unit)
         for j in range(len(t)):
-            obs.append((k, t[j], rv[j] * f, err[j] * f))
+            obs.append((k, t[j], rv[j] * f, err[j] * fe))
     distinct = z3.Distinct(*[L(o[2]) for o in obs]) if len(obs) > 1 else z3.BoolVal(True)
     # (1) merged set = union, triples intact
     cl = []
@@ -234,9 +246,10 @@ def replay(cand):
         rv = np.array([f(x) for x in m["rv"][k]])
         err = np.array([abs(f(x)) or 1.0 for x in m["err"][k]])
         un = u.m / u.s if (shape["mixed_units"] and k % 2 == 1) else u.km / u.s
-        srcs.append(RVData(t, rv * un, err * un))
+        eun = _err_unit(shape, k, un, u)
+        srcs.append(RVData(t, rv * un, err * eun))
         for j in range(len(t)):
-            obs.append((k, t[j], (rv[j] * un).to_value(u.km / u.s) if True else rv[j], (err[j] * un).to_value(u.km / u.s)))
+            obs.append((k, t[j], (rv[j] * un).to_value(u.km / u.s) if True else rv[j], (err[j] * eun).to_value(u.km / u.s)))
     labels = [o[2] for o in obs]
     if len(set(np.round(labels, 12))) != len(labels):
         return {"reproduced": False, "detail": "model velocities are not distinct labels"}
